@@ -166,10 +166,20 @@ def helper_decl(h, docs=False):
     return out + bitfield_decl(h, docs=docs)
 
 
-def decl_text(case, docs=False):
+def helpers_block(case, docs=False):
+    """helper type declarations of a case; with `path_types` they live in a module `inner` and the fields name them through that path"""
     lines = []
     for h in case.get("helpers", []):
         lines += helper_decl(h, docs=docs)
+    if case.get("path_types") and lines:
+        inner = (["/// helper types reached through a path"] if docs else []) + ["pub mod inner {", "    #![allow(dead_code, non_camel_case_types, unused_imports)]", "    use arbitrary_int::*;", "    use bitbybit::{bitenum, bitfield};"]
+        inner += ["    " + l for l in lines] + ["}", "#[allow(unused_imports)]", "use self::inner::*;"]
+        return inner
+    return lines
+
+
+def decl_text(case, docs=False):
+    lines = helpers_block(case, docs=docs)
     lines += bitfield_decl(case, docs=docs)
     return "\n".join(lines)
 
@@ -339,9 +349,8 @@ def subject_module(case):
     L.append("    use bitbybit::{bitenum, bitfield};")
     L.append("    use vrt::{CaseDesc, ConstObs, FieldDesc, Kind, Obs, Subject, TypeTable};")
     s0 = len(L)
-    for h in case.get("helpers", []):
-        for l in helper_decl(h):
-            L.append("    " + l)
+    for l in helpers_block(case):
+        L.append("    " + l)
     mark("helpers", s0)
     s0 = len(L)
     for l in bitfield_decl(case):
